@@ -192,9 +192,41 @@ static int lowest(unsigned m)
     return -1;
 }
 
+static const uint8_t *cur_sched;
+static int cur_len;
+const uint8_t *vs_cur_sched(int *len) { *len = cur_len; return cur_sched; }
+
+#include <signal.h>
+static void (*crash_dump)(int);
+static void crash_handler(int sig)
+{
+    static int once;
+    if (once++) _exit(5);
+    if (crash_dump) crash_dump(sig);
+    fflush(stdout);
+    _exit(0);
+}
+void vs_install_crash_handler(void (*dump)(int sig))
+{
+    static char altstack[65536];
+    stack_t ss = { .ss_sp = altstack, .ss_size = sizeof(altstack), .ss_flags = 0 };
+    sigaltstack(&ss, NULL);
+    struct sigaction sa;
+    memset(&sa, 0, sizeof(sa));
+    sa.sa_handler = crash_handler;
+    sa.sa_flags = SA_ONSTACK | SA_NODEFER;
+    crash_dump = dump;
+    sigaction(SIGSEGV, &sa, NULL);
+    sigaction(SIGBUS, &sa, NULL);
+    sigaction(SIGABRT, &sa, NULL);
+    sigaction(SIGFPE, &sa, NULL);
+    sigaction(SIGILL, &sa, NULL);
+}
+
 static int run_once(struct vs_explore *e, const uint8_t *prefix, int plen,
                     uint8_t *sched, uint8_t *masks, int max, bool *stuck)
 {
+    cur_sched = sched; cur_len = 0;
     e->setup(e->ctx);
     e->overrun = false;
     int last = -1, len = 0;
@@ -214,6 +246,7 @@ static int run_once(struct vs_explore *e, const uint8_t *prefix, int plen,
         masks[len] = (uint8_t)mask;
         sched[len] = (uint8_t)t;
         len++;
+        cur_len = len;
         vs_step(t);
         if (e->after_step) e->after_step(e->ctx, t);
         last = t;
@@ -281,6 +314,7 @@ int vs_replay(struct vs_explore *e, const uint8_t *prefix, int plen, uint8_t *ou
 
 int vs_random(struct vs_explore *e, uint64_t *rng, int sw, uint8_t *out, int outmax, bool *stuck)
 {
+    cur_sched = out; cur_len = 0;
     e->setup(e->ctx);
     e->overrun = false;
     int last = -1, len = 0;
@@ -298,6 +332,7 @@ int vs_random(struct vs_explore *e, uint64_t *rng, int sw, uint8_t *out, int out
         }
         if (len >= outmax) { e->overrun = true; break; }
         out[len++] = (uint8_t)t;
+        cur_len = len;
         vs_step(t);
         if (e->after_step) e->after_step(e->ctx, t);
         last = t;
